@@ -211,3 +211,96 @@ func H_kq_nested() {
 	verifAssert(wt.Close() == nil, "Close")
 	verifReach("kq-nested")
 }
+
+// ---- multi-step histories against a small reference model ----
+
+type verifEntModel struct {
+	kind  int  // nAbsent, nFile, nDir, nFifo
+	known bool // existed at Add time or already reported
+}
+
+var verifEntNames = [...]string{"/d/a", "/d/b", "/d/c"}
+
+// verifDirOp applies one environment operation to the file system and the
+// reference model, raises the vnode notes FreeBSD raises for it, and returns
+// the events the property demands for it.
+func verifDirOp(m *[3]verifEntModel, base string) []verifKqExp {
+	var want []verifKqExp
+	i := verifChoose("entry", 3)
+	name := verifEntNames[i]
+	spelled := base + name[2:]
+	e := &m[i]
+	watched := e.kind == nFile || e.kind == nDir
+	switch verifChoose("dirop", 5) {
+	case 0: // create
+		verifAssume(e.kind == nAbsent)
+		k := [...]int{nFile, nDir, nFifo}[verifChoose("newkind", 3)]
+		e.kind = k
+		verifNodeOf2(name).kind = k
+		verifRaise("/d", unix.NOTE_WRITE)
+		want = append(want, verifKqExp{spelled, Create})
+		e.known = true
+	case 1: // remove
+		verifAssume(e.kind != nAbsent)
+		verifNodeOf2(name).kind = nAbsent
+		if watched {
+			verifRaise(name, unix.NOTE_DELETE)
+			want = append(want, verifKqExp{spelled, Remove})
+		}
+		verifRaise("/d", unix.NOTE_WRITE)
+		e.kind = nAbsent
+		e.known = false
+	case 2: // write
+		verifAssume(e.kind == nFile)
+		verifRaise(name, unix.NOTE_WRITE)
+		want = append(want, verifKqExp{spelled, Write})
+	case 3: // chmod (of a file: sub-directories are only subscribed for delete/rename)
+		verifAssume(e.kind == nFile)
+		verifRaise(name, unix.NOTE_ATTRIB)
+		want = append(want, verifKqExp{spelled, Chmod})
+	case 4: // rename to another (absent) name in the directory
+		j := (i + 1 + verifChoose("to", 2)) % 3
+		t := &m[j]
+		verifAssume(watched && t.kind == nAbsent)
+		t.kind, t.known = e.kind, true
+		verifNodeOf2(verifEntNames[j]).kind = e.kind
+		verifNodeOf2(name).kind = nAbsent
+		e.kind, e.known = nAbsent, false
+		verifRaise(name, unix.NOTE_RENAME)
+		verifRaise("/d", unix.NOTE_WRITE)
+		want = append(want, verifKqExp{spelled, Rename}, verifKqExp{base + verifEntNames[j][2:], Create})
+	}
+	return want
+}
+
+// H_kq_history: a watched directory with arbitrary initial contents undergoes
+// STEPS operations, each followed by delivery of its notifications; after every
+// step the delivered events must be exactly what the step warrants.
+func H_kq_history() {
+	verifQReset()
+	verifAddNode("/d", nDir, "")
+	var m [3]verifEntModel
+	for i, name := range verifEntNames {
+		k := [...]int{nAbsent, nFile, nFifo}[verifChoose("init", 3)]
+		if i == 2 {
+			k = nAbsent
+		}
+		verifAddNode(name, k, "")
+		m[i] = verifEntModel{kind: k, known: k != nAbsent}
+	}
+	verifAddNode("/l", nSymlink, "/d")
+	wt, _ := verifKqNew()
+	base := [...]string{"/d", "/l"}[verifChoose("spelling", 2)]
+	verifAssert(wt.Add(base) == nil, "Add dir")
+	verifExpect(verifCollect(wt, nil), nil, "entries that existed when the watch was added are never reported as Create")
+	steps := verifParam("STEPS")
+	for s := 0; s < steps; s++ {
+		want := verifDirOp(&m, base)
+		got := verifCollect(wt, nil)
+		verifExpect(got, want, "history step")
+	}
+	verifRaise("/d", unix.NOTE_WRITE)
+	verifExpect(verifCollect(wt, nil), nil, "a later directory change reports nothing again")
+	verifAssert(wt.Close() == nil, "Close")
+	verifReach("kq-history")
+}
